@@ -17,6 +17,7 @@ ENGINE_OF = {
     'C17': 'engines.e_nnps',
     'C07': 'engines.e_dom',
     'C16': 'engines.e_io',
+    'C05': 'engines.e_omp',
 }
 
 
